@@ -1130,6 +1130,12 @@ class Interp:
         if r is not None and isinstance(r[1], ast.FunctionDef):
             return self.call_fn(r[1], args, kw, None, r[0], False)
         extra = tuple(("kw", k, v) for k, v in sorted(kw.items()))
+        for v_ in list(args) + list(kw.values()):
+            try:
+                hash(v_)
+            except TypeError:
+                # a function value (closure) handed to a library combinator the analyser has no model for
+                raise Unsupported(f"call of {name} with a function argument: the analyser has no model of this combinator") from None
         if name not in KNOWN_HERBRAND:
             # a library function the analyser has neither a model nor a frozen uninterpreted reading for: the term
             # carries a marker, and a failed term identity that involves it is reported as undecided, not as a violation
@@ -1401,6 +1407,8 @@ class Interp:
             return ("app", "and", (a, b))
         if op == "MatMult":
             return self.dot(a, b)
+        if op in ("LShift", "RShift") and is_num(a) and is_num(b) and a[1].denominator == 1 and b[1].denominator == 1 and 0 <= b[1] <= 62:
+            return K(int(a[1]) << int(b[1]) if op == "LShift" else int(a[1]) >> int(b[1]))
         raise Unsupported(f"operator {op}")
 
     def pointwise(self, name, args):
@@ -1906,6 +1914,9 @@ def _p_stack(name):
     def h(I, args, kw, node):
         a = args[0]
         items = a[1] if a[0] == "tuple" else (a,)
+        axis = kw.get("axis", args[1] if len(args) > 1 else None)
+        if a[0] != "tuple" and name == "stack" and axis is not None and axis != ZERO:
+            return ("app", name, tuple(items) + (("kw", "axis", axis),))  # an opaque sequence stacked along another axis
         return ("app", name, tuple(items))
     return h
 
